@@ -1,60 +1,61 @@
 """C16 - regions labels are exactly the connected components of equal value.
 
-Premises of the paper argument (notes/engine_sketches.md), decided on the labelling kernel reached from zonal.regions:
-R1 neighbour tables are the von Neumann / Moore offsets, value window and label window use the same offset per slot,
-both passes use the same tables, clamps are axis-correct; R2 pass 1: first labelled matching neighbour else a fresh
-positive id, NaN cells copied through and skipped; R3 pass 2: every pair of distinct labels among matching neighbours
-is merged globally in either order, no early exit; Q1 the running label counter is stored only in arrays of a fixed
-wide dtype; Q2 value matching is exact equality on the integer-typed path (an equivalence relation), tolerance
-arithmetic only on the float path; the wrapper keeps coords/dims/attrs.
+Premises of the paper argument (notes/engine_sketches.md), decided on the labelling kernel reached from zonal.regions.
+All of R1-R3 are decided on the kernel's abstract interpretation (stores, loop-carried updates, break paths), not on
+its text, by exact evaluation over finite decision tables:
+R1 both passes visit every cell; the neighbour windows are the von Neumann / Moore offsets clamped to the cell's OWN
+axis extent, value window and label window use the same offset per slot, both passes use the same tables;
+R2 pass 1: NaN cells copied through; a cell takes the label of the first labelled (> 0) matching neighbour, else a fresh
+id from a counter that starts at 1 and advances exactly when used;
+R3 pass 2: for every matching neighbour (no early exit) with a label different from the running one, the larger label
+is replaced by the smaller over the WHOLE raster and the running label becomes the smaller;
+Q1 the running label counter is stored only in arrays of a fixed wide dtype; Q2 value matching is exact equality on
+the integer-typed path (an equivalence relation), tolerance arithmetic only on the float path.
 """
 import ast
+from fractions import Fraction
 
 from ..astutil import calls, const, kw, parent_map, short
+from ..kai import interpret, cond_repr
+from ..kutil import CannotEvaluate, eval_cond_full, evaluate, guard_atoms, returned_arrays, show
 from ..program import AnalysisIncomplete, Func, norm
+from ..sym import App, Rat, Sym, walk_atoms
 
 MOORE = {(-1, -1), (0, -1), (1, -1), (-1, 0), (1, 0), (-1, 1), (0, 1), (1, 1)}
 NEUMANN = {(0, -1), (-1, 0), (1, 0), (0, 1)}
-WIDE = ('np.float64', 'np.int64', 'np.uint64', 'float', 'numpy.float64', 'numpy.int64', "'f8'", "'i8'", 'np.uint32',
-        'np.int32')
 WIDE_OK = ('np.float64', 'np.int64', 'np.uint64', 'float', 'numpy.float64', 'numpy.int64', "'f8'", "'i8'")
+OWN = Fraction(999983)       # stands for the value of the centre cell (whatever it is)
+NONE = App('none', [])
 
 
-def parse_index(e, var, ext):
-    """`max(v - 1, 0)` -> (-1, 'clamped') ; `min(v + 1, ext - 1)` -> (+1, 'clamped'); `v` -> (0, 'plain')"""
-    t = norm(e).replace(' ', '')
-    if t == var:
-        return 0, 'plain'
-    if t in ('max(%s-1,0)' % var, 'max(0,%s-1)' % var):
-        return -1, 'clamped'
-    if t in ('min(%s+1,%s-1)' % (var, ext), 'min(%s-1,%s+1)' % (ext, var)):
-        return 1, 'clamped'
-    if t == '%s-1' % var:
-        return -1, 'unclamped'
-    if t == '%s+1' % var:
-        return 1, 'unclamped'
-    return None, t
+def F(x):
+    return Fraction(x)
 
 
-def window_tables(f, stmts, data, out, yv, xv, rows, cols):
-    """{window name: {slot: (dy, dx)}} from `W[k] = A[iy, ix]` stores in stmts"""
-    tabs = {}
-    bad = []
-    for s in stmts:
-        for n in ast.walk(s):
-            if isinstance(n, ast.Assign) and isinstance(n.targets[0], ast.Subscript) and isinstance(n.value, ast.Subscript) \
-                    and isinstance(n.targets[0].value, ast.Name) and isinstance(n.value.value, ast.Name) and \
-                    n.value.value.id in (data, out) and isinstance(n.value.slice, ast.Tuple) and len(n.value.slice.elts) == 2:
-                k = const(n.targets[0].slice)
-                iy, ix = n.value.slice.elts
-                dy, ky = parse_index(iy, yv, rows)
-                dx, kx = parse_index(ix, xv, cols)
-                w = n.targets[0].value.id
-                if dy is None or dx is None or 'unclamped' in (ky, kx):
-                    bad.append((n, 'index (%s, %s)' % (ky if dy is None else dy, kx if dx is None else dx)))
-                    continue
-                tabs.setdefault((w, n.value.value.id), {})[k] = (dy, dx)
-    return tabs, bad
+def _atoms(*things):
+    s = set()
+    for t in things:
+        if isinstance(t, Rat):
+            walk_atoms(t, s)
+        elif isinstance(t, tuple):
+            guard_atoms([t], s) if False else s.update(guard_atoms([t]))
+    return s
+
+
+def _all_true(guards, env):
+    return all(eval_cond_full(g, env) for g in guards)
+
+
+def _is_full_range(L, hi_atom):
+    return L.kind in ('range', 'prange') and L.lo == Rat.const(0) and L.hi == Rat.atom(hi_atom) and L.step == Rat.const(1)
+
+
+class Ctx:
+    pass
+
+
+class BadSweep(Exception):
+    pass
 
 
 def check(prog, rep):
@@ -72,63 +73,45 @@ def check(prog, rep):
         raise AnalysisIncomplete('regions: labelling kernel call not found')
     call, f = kcall
     entry = 'regions'
-    data = f.params[0]
-    # rows, cols = data.shape
-    rows = cols = None
-    for s in f.node.body:
-        if isinstance(s, ast.Assign) and isinstance(s.targets[0], ast.Tuple) and norm(s.value) == '%s.shape' % data:
-            rows, cols = [e.id for e in s.targets[0].elts]
-    rets = [n for n in f.own_nodes() if isinstance(n, ast.Return)]
-    out = norm(rets[-1].value) if rets else None
-    passes = [s for s in f.node.body if isinstance(s, ast.For)]
-    if rows is None or out is None or len(passes) != 2:
-        raise AnalysisIncomplete('regions kernel: expected `rows, cols = data.shape`, two raster passes and a returned array')
-    tables = []
-    for pi, lp in enumerate(passes):
-        inner = [s for s in lp.body if isinstance(s, ast.For)]
-        ok = norm(lp.iter).replace(' ', '') in ('range(0,%s)' % rows, 'range(%s)' % rows) and len(inner) == 1 and \
-            norm(inner[0].iter).replace(' ', '') in ('range(0,%s)' % cols, 'range(%s)' % cols)
-        rep.add('R1-order', f, entry, 'pass %d: for %s in %s / for %s in %s' % (
-            pi + 1, norm(lp.target), norm(lp.iter), norm(inner[0].target) if inner else '?', norm(inner[0].iter) if inner else '?'),
-            lp.lineno, ok, 'both passes must visit every cell in raster order')
+    k = interpret(prog, f, strict=False)
+    outs = returned_arrays(k)
+    if len(outs) != 1:
+        raise AnalysisIncomplete('regions kernel: expected exactly one returned label array')
+    c = Ctx()
+    c.rep, c.f, c.entry, c.k = rep, f, entry, k
+    c.out = outs[0]
+    c.data = f.params[0]
+    c.nparam = f.params[1] if len(f.params) > 1 else None
+    c.rows, c.cols = App('shape', [c.data, 0]), App('shape', [c.data, 1])
+    tops = []
+    for s in k.stores:
+        if s.arr is c.out and s.loops and not any(s.loops[0] is t for t in tops):
+            tops.append(s.loops[0])
+    if len(tops) != 2:
+        raise AnalysisIncomplete('regions kernel: expected two raster passes writing the label array, found %d' % len(tops))
+    c.passes = []
+    for pi, Ly in enumerate(tops):
+        inner = []
+        for s in k.stores:
+            if s.loops and s.loops[0] is Ly and len(s.loops) > 1 and not any(s.loops[1] is t for t in inner):
+                inner.append(s.loops[1])
+        ok = _is_full_range(Ly, c.rows) and len(inner) == 1 and _is_full_range(inner[0], c.cols)
+        rep.add('R1-order', f, entry, 'pass %d: %s / %s' % (pi + 1, norm(Ly.node.iter), norm(inner[0].node.iter) if inner else '?'),
+                Ly.node.lineno, ok, 'both passes must visit every cell: rows 0..shape[0] in the outer loop, columns '
+                '0..shape[1] in the single inner loop')
         if not ok:
-            continue
-        yv, xv = lp.target.id, inner[0].target.id
-        body = inner[0].body
-        conn = [s for s in body if isinstance(s, ast.If) and norm(s.test).replace(' ', '') in ('n==8', '8==n')]
-        if len(conn) != 1:
-            rep.add('R1', f, entry, 'pass %d: `if n == 8` window selection' % (pi + 1), lp.lineno, None, 'not found')
-            continue
-        t8, bad8 = window_tables(f, conn[0].body, data, out, yv, xv, rows, cols)
-        t4, bad4 = window_tables(f, conn[0].orelse, data, out, yv, xv, rows, cols)
-        for n, why in bad8 + bad4:
-            rep.add('R1', f, entry, norm(n), n.lineno, False,
-                    'neighbour index must be the cell index +-1 clamped to its OWN axis extent: ' + why)
-        for label, tabs, want in (('8', t8, MOORE), ('4', t4, NEUMANN)):
-            src = [v for (w, a), v in tabs.items() if a == data]
-            lab = [v for (w, a), v in tabs.items() if a == out]
-            ok = len(src) == 1 and len(lab) == 1
-            if ok:
-                s0, l0 = src[0], lab[0]
-                same = s0 == l0
-                full = set(s0.values()) == want and len(s0) == len(want) and sorted(s0) == list(range(len(want)))
-                rep.add('R1', f, entry, 'pass %d, %s-connectivity: value window %s' % (pi + 1, label, sorted(s0.values())),
-                        conn[0].lineno, full,
-                        'the %s-neighbourhood must be exactly the %s offsets, one per slot' % (label, 'Moore' if label == '8' else 'von Neumann'))
-                rep.add('R1', f, entry, 'pass %d, %s-connectivity: label window uses the same offsets' % (pi + 1, label),
-                        conn[0].lineno, same, 'slot k of the label window must look at the same neighbour as slot k of '
-                        'the value window: value %s label %s' % (sorted(s0.items()), sorted(l0.items())))
-                tables.append((pi, label, s0))
-            else:
-                rep.add('R1', f, entry, 'pass %d, %s-connectivity windows' % (pi + 1, label), conn[0].lineno, False,
-                        'expected one value window (from %s) and one label window (from %s)' % (data, out))
-    for label in ('8', '4'):
-        ts = [t for pi, lb, t in tables if lb == label]
-        rep.add('R1', f, entry, '%s-connectivity: pass 2 uses the tables of pass 1' % label, f.node.lineno,
-                len(ts) == 2 and ts[0] == ts[1], 'both passes must read the same neighbour set')
-    check_pass1(rep, f, entry, passes[0], data, out)
-    check_pass2(rep, f, entry, passes[1], data, out, rows, cols)
-    check_dtypes(prog, rep, f, pub, call, entry, data, out)
+            return
+        c.passes.append((Ly, inner[0]))
+    tables = [window_tables(c, pi) for pi in range(2)]
+    for conn in (8, 4):
+        t1, t2 = tables[0].get(conn), tables[1].get(conn)
+        rep.add('R1', f, entry, '%d-connectivity: pass 2 uses the tables of pass 1' % conn, f.node.lineno,
+                t1 is not None and t1 == t2, 'both passes must read the same neighbour set')
+    c.labelwin = {t.get('labelwin') for t in tables}
+    c.valuewin = {t.get('valuewin') for t in tables}
+    check_pass1(c)
+    check_pass2(c)
+    check_dtypes(prog, rep, f, pub, call, entry, c)
     # n validated
     ok = any(isinstance(s, ast.If) and 'not in (4, 8)' in norm(s.test) and any(isinstance(x, ast.Raise) for x in s.body)
              for s in pub.own_nodes())
@@ -141,107 +124,406 @@ def check(prog, rep):
     rep.floor('Q2', 2)
 
 
-def check_pass1(rep, f, entry, lp, data, out):
-    inner = [s for s in lp.body if isinstance(s, ast.For)][0]
-    yv, xv = lp.target.id, inner.target.id
-    body = inner.body
-    # NaN copy-through
-    nanif = [s for s in body if isinstance(s, ast.If) and norm(s.test).replace(' ', '') in ('np.isnan(val)',)]
-    ok = len(nanif) == 1 and any(norm(x).replace(' ', '') == '%s[%s,%s]=val' % (out, yv, xv) for x in nanif[0].body) and \
-        isinstance(nanif[0].body[-1], ast.Continue)
-    rep.add('R2', f, entry, 'pass 1: NaN cells copied through and skipped', lp.lineno, ok,
-            'NaN cells must stay NaN and take no label')
-    # uid
-    uids = [v for v in f.local_assigns().get('uid', []) if isinstance(v, ast.AST)]
-    ok = len(uids) == 1 and const(uids[0]) == 1
-    rep.add('R2', f, entry, 'uid = %s' % (norm(uids[0]) if uids else None), f.node.lineno, ok, 'labels are positive: ids start at 1')
-    fresh = []
-    for n in ast.walk(lp):
-        if isinstance(n, ast.Assign) and norm(n).replace(' ', '') == '%s[%s,%s]=uid' % (out, yv, xv):
-            fresh.append(n)
-    pm = parent_map(lp)
-    good = 0
-    for n in fresh:
-        blk = None
-        p = pm.get(n)
-        for fld in ('body', 'orelse'):
-            b = getattr(p, fld, [])
-            if n in b:
-                blk = b
-        nxt = blk[blk.index(n) + 1] if blk and blk.index(n) + 1 < len(blk) else None
-        if nxt is not None and norm(nxt) == 'uid += 1':
-            good += 1
-    rep.add('R2', f, entry, 'fresh label sites: %d, each followed by uid += 1' % len(fresh), lp.lineno,
-            len(fresh) == 2 and good == 2, 'a cell without a labelled matching neighbour takes a fresh id and the '
-            'counter advances (both when no neighbour matches and when no matching neighbour is labelled yet)')
-    # first labelled matching neighbour
-    ok = False
-    for n in ast.walk(lp):
-        if isinstance(n, ast.If) and norm(n.test).replace(' ', '') in ('area_val>0',):
-            ok = any(norm(x) == 'assigned_value = area_val' for x in n.body) and isinstance(n.body[-1], ast.Break)
-    rep.add('R2', f, entry, 'label of the first already-labelled matching neighbour', lp.lineno, ok,
-            'a cell with a labelled matching neighbour must copy that label (label > 0)')
-    ok = any(isinstance(n, ast.Assign) and norm(n).replace(' ', '') == '%s[%s,%s]=assigned_value' % (out, yv, xv) for n in ast.walk(lp))
-    rep.add('R2', f, entry, '%s[y, x] = assigned_value' % out, lp.lineno, ok, 'the copied label must be stored at the cell')
-    # matches index into the label window
-    ok = any(isinstance(n, ast.Assign) and norm(n.value).replace(' ', '') == 'area_window[neighbor_matches[j]]' for n in ast.walk(lp))
-    rep.add('R2', f, entry, 'area_val = area_window[neighbor_matches[j]]', lp.lineno, ok,
-            'labels are looked up at the slots of the MATCHING neighbours')
+def window_tables(c, pi):
+    """{conn: {slot: (dy, dx)}} of pass pi, decided by evaluating every window store's source index at the corners,
+    edges and interior of two rasters (11x13 and 13x11): it must be the cell index plus a constant offset clamped to
+    the cell's own axis extent."""
+    rep, f, entry = c.rep, c.f, c.entry
+    Ly, Lx = c.passes[pi]
+    ysym, xsym, nsym = Sym(Ly.var), Sym(Lx.var), Sym(c.nparam)
+    res = {}
+    wins = {}
+    for s in c.k.stores:
+        if s.arr is c.out or len(s.loops) != 2 or s.loops[0] is not Ly or len(s.idx) != 1 or \
+                not isinstance(s.idx[0], Rat) or not s.idx[0].is_const():
+            continue
+        at = list(s.value.atoms()) if isinstance(s.value, Rat) else []
+        if len(at) != 1 or not isinstance(at[0], App) or at[0].name not in ('read', 'cell?') or \
+                s.value != Rat.atom(at[0]) or at[0].args[0] not in (c.data, c.out.name):
+            continue
+        srcname = at[0].args[0]
+        slot = int(s.idx[0].const_value())
+        nguards = [g for g in s.guards if guard_atoms([g]) and guard_atoms([g]) <= {nsym}]
+        try:
+            conns = [cn for cn in (8, 4) if _all_true(nguards, {nsym: F(cn)})]
+            off = None
+            bad = None
+            for R, C in ((11, 13), (13, 11)):
+                for yp in (0, 5, R - 1):
+                    for xp in (0, 6, C - 1):
+                        env = {ysym: F(yp), xsym: F(xp), c.rows: F(R), c.cols: F(C)}
+                        iy, ix = evaluate(at[0].args[1], env), evaluate(at[0].args[2], env)
+                        if off is None:
+                            off = None if (yp, xp) != (5, 6) else (iy - 5, ix - 6)
+                        if (yp, xp) == (5, 6) and off is None:
+                            off = (iy - 5, ix - 6)
+                for yp in (0, 5, R - 1):
+                    for xp in (0, 6, C - 1):
+                        env = {ysym: F(yp), xsym: F(xp), c.rows: F(R), c.cols: F(C)}
+                        iy, ix = evaluate(at[0].args[1], env), evaluate(at[0].args[2], env)
+                        wy, wx = min(max(yp + off[0], 0), R - 1), min(max(xp + off[1], 0), C - 1)
+                        if (iy, ix) != (wy, wx) and bad is None:
+                            bad = 'at cell (%d, %d) of a %dx%d raster it reads (%s, %s), not (%s, %s)' % (yp, xp, R, C, iy, ix, wy, wx)
+        except CannotEvaluate as e:
+            rep.add('R1', f, entry, norm(s.node), s.node.lineno, None, 'window index not evaluable: %s' % e)
+            continue
+        if bad:
+            rep.add('R1', f, entry, norm(s.node), s.node.lineno, False,
+                    'neighbour index must be the cell index plus a constant, clamped to its OWN axis extent: ' + bad)
+            continue
+        for cn in conns:
+            wins.setdefault((cn, s.arr.name, srcname), {}).setdefault(slot, set()).add((int(off[0]), int(off[1])))
+    for conn, want in ((8, MOORE), (4, NEUMANN)):
+        src = [(w, v) for (cn, w, a), v in wins.items() if cn == conn and a == c.data]
+        lab = [(w, v) for (cn, w, a), v in wins.items() if cn == conn and a == c.out.name]
+        line = Ly.node.lineno
+        if len(src) != 1 or len(lab) != 1:
+            rep.add('R1', f, entry, 'pass %d, %d-connectivity windows' % (pi + 1, conn), line, False,
+                    'expected one value window (from %s) and one label window (from %s), found %d and %d' % (
+                        c.data, c.out.name, len(src), len(lab)))
+            continue
+        (sw, s0), (lw, l0) = src[0], lab[0]
+        single = all(len(v) == 1 for v in s0.values()) and all(len(v) == 1 for v in l0.values())
+        offs = [next(iter(v)) for v in s0.values()]
+        full = single and set(offs) == want and len(offs) == len(want) and sorted(s0) == list(range(len(want)))
+        rep.add('R1', f, entry, 'pass %d, %d-connectivity: value window %s' % (pi + 1, conn, sorted(offs)), line, full,
+                'the %d-neighbourhood must be exactly the %s offsets, one per slot 0..%d' % (
+                    conn, 'Moore' if conn == 8 else 'von Neumann', conn - 1))
+        rep.add('R1', f, entry, 'pass %d, %d-connectivity: label window uses the same offsets' % (pi + 1, conn), line,
+                single and s0 == l0, 'slot k of the label window must look at the same neighbour as slot k of the value '
+                'window: value %s label %s' % (sorted((kk, sorted(v)) for kk, v in s0.items()),
+                                               sorted((kk, sorted(v)) for kk, v in l0.items())))
+        if full and s0 == l0:
+            res[conn] = {kk: next(iter(v)) for kk, v in s0.items()}
+            res['labelwin'] = lw
+            res['valuewin'] = sw
+    return res
 
 
-def check_pass2(rep, f, entry, lp, data, out, rows, cols):
-    inner = [s for s in lp.body if isinstance(s, ast.For)][0]
-    body = inner.body
-    nanif = [s for s in body if isinstance(s, ast.If) and norm(s.test).replace(' ', '') in ('np.isnan(val)',)]
-    ok = len(nanif) == 1 and len(nanif[0].body) == 1 and isinstance(nanif[0].body[0], ast.Continue)
-    rep.add('R3', f, entry, 'pass 2: NaN cells skipped', lp.lineno, ok, 'NaN cells take part in no merge')
-    merge = [s for s in body if isinstance(s, ast.For) and 'neighbor_matches' in norm(s.iter)]
-    if len(merge) != 1:
-        rep.add('R3', f, entry, 'pass 2 merge loop', lp.lineno, None, 'loop over the matching neighbours not found')
+def _classify(c, atoms, Ly, Lx, allow_phi_of=()):
+    """sort the atoms a pass's decisions depend on into roles; unknown ones are returned under 'other'"""
+    ysym, xsym = Sym(Ly.var), Sym(Lx.var)
+    centre = App('read', [c.data, Rat.atom(ysym), Rat.atom(xsym)])
+    roles = {'nan': [], 'count': [], 'label': [], 'is': [], 'own': [], 'phi': [], 'loopout': [], 'other': [], 'outcell': []}
+    phis = set()
+    for L in allow_phi_of:
+        for v in getattr(L, 'phi', {}).values():
+            if isinstance(v, Rat):
+                phis |= set(v.atoms())
+    lo_names = set()
+    for a in atoms:
+        if isinstance(a, App) and a.name == 'loopout' and isinstance(a.args[0], Rat):
+            lo_names |= set(a.args[0].atoms())
+    for a in atoms:
+        if a in lo_names or (isinstance(a, App) and a.name == 'ite'):
+            continue        # the variable name inside loopout(name, loop); ite is structure (its parts are visited)
+        if a == centre:
+            roles['own'].append(a)
+        elif isinstance(a, App) and a.name == 'isnan' and a.args[0] == Rat.atom(centre):
+            roles['nan'].append(a)
+        elif isinstance(a, App) and a.name == 'count':
+            roles['count'].append(a)
+        elif isinstance(a, App) and a.name == 'cell?' and a.args[0] in c.labelwin and isinstance(a.args[1], Rat) and \
+                len(a.args[1].atoms()) == 1 and getattr(next(iter(a.args[1].atoms())), 'name', '') == 'match':
+            roles['label'].append(a)
+        elif isinstance(a, App) and a.name in ('cell?', 'read') and a.args[0] == c.out.name:
+            roles['outcell'].append(a)
+        elif isinstance(a, App) and a.name == 'is' and a.args[1] == Rat.atom(NONE):
+            roles['is'].append(a)
+        elif isinstance(a, App) and a.name == 'loopout':
+            roles['loopout'].append(a)
+        elif a in phis:
+            roles['phi'].append(a)
+        elif a == NONE or (isinstance(a, App) and a.name in ('match', 'read', 'arr', 'abs')) or \
+                (isinstance(a, Sym) and a.name in (Ly.var, Lx.var) + tuple(c.f.params)):
+            pass        # parts of the matching predicate / indices inside the atoms above
+        elif isinstance(a, Sym) and '@' in a.name:
+            pass        # loop variables of inner loops
+        else:
+            roles['other'].append(a)
+    return roles
+
+
+def _match_ok(c, label_atom, L):
+    """the label is read at slot match(P, j) with j the variable of loop L, L running over all count(P) matches"""
+    idx = next(iter(label_atom.args[1].atoms()))
+    P, j = idx.args
+    return label_atom.args[1] == Rat.atom(idx) and j == Rat.sym(L.var) and L.kind == 'range' and L.lo == Rat.const(0) and \
+        L.hi == Rat.atom(App('count', [P])) and L.step == Rat.const(1), P
+
+
+def check_pass1(c):
+    rep, f, entry, k = c.rep, c.f, c.entry, c.k
+    Ly, Lx = c.passes[0]
+    line = Ly.node.lineno
+    ycell = (Rat.sym(Ly.var), Rat.sym(Lx.var))
+    stores = [s for s in k.stores if s.arr is c.out and s.loops and s.loops[0] is Ly]
+    foreign = [s for s in stores if tuple(s.idx) != ycell]
+    rep.add('R2', f, entry, 'pass 1 writes only the visited cell (%d stores)' % len(stores), line, not foreign,
+            'pass 1 may label only the cell it visits' + (': ' + norm(foreign[0].node) if foreign else ''))
+    if foreign:
         return
-    ml = merge[0]
-    brk = [n for n in ast.walk(ml) if isinstance(n, (ast.Break, ast.Return))]
-    # breaks inside the replacement loops would also be wrong
-    rep.add('R3', f, entry, 'merge loop has no early exit', ml.lineno, not brk,
-            'every matching neighbour must be examined: an early exit leaves labels of one component unmerged')
-    # replacement loops: for y1 in range(0, rows): for x1 in range(0, cols): if out[y1,x1] == A: out[y1,x1] = B
+    # the label counter: the loop-carried scalar of the cell loop that is stored into the label array
+    cnt = [n for n, (symv, post) in getattr(Lx, 'carried', {}).items()
+           if any(isinstance(s.value, Rat) and s.value == symv for s in stores)]
+    if len(cnt) != 1:
+        rep.add('R2', f, entry, 'label counter', line, None, 'no unique loop-carried counter stored as a fresh label')
+        return
+    uid = cnt[0]
+    usym, upost = Lx.carried[uid]
+    uatom = next(iter(usym.atoms()))
+    init = Ly.pre.get(uid)
+    ok = isinstance(init, Rat) and init == Rat.const(1)
+    rep.add('R2', f, entry, '%s starts at %r' % (uid, init), f.node.lineno, ok, 'labels are positive: ids start at 1 '
+            '(0 means unlabelled)')
+    cont = Lx.pre.get(uid) == Ly.phi.get(uid) and Ly.carried.get(uid, (None, None))[1] == \
+        Rat.atom(App('loopout', [Rat.sym(uid), Rat.sym(Lx.var)]))
+    rep.add('R2', f, entry, '%s is carried from row to row unchanged' % uid, line, bool(cont),
+            'the counter must not be reset or changed between rows: labels of different regions would collide')
+    atoms = set()
+    for s in stores:
+        atoms |= guard_atoms(s.guards[Lx.gdepth:]) | (walk_atoms(s.value) if isinstance(s.value, Rat) else set())
+    atoms |= walk_atoms(upost)
+    roles = _classify(c, atoms, Ly, Lx, (Lx,))
+    extra = [a for a in roles['phi'] if a != uatom] + roles['other'] + roles['label'] + roles['outcell']
+    if extra or len(roles['loopout']) > 1 or len(roles['nan']) > 1 or len(roles['count']) > 1:
+        rep.add('R2', f, entry, 'pass 1 decision structure', line, None,
+                'depends on quantities the rule does not model: %s' % show(extra or roles['loopout'] or roles['count'], 200))
+        return
+    found = roles['loopout'][0] if roles['loopout'] else None
+    # search loop: found label is None or the label (> 0) of a matching neighbour
+    if found is None:
+        rep.add('R2', f, entry, 'label of an already-labelled matching neighbour', line, False,
+                'pass 1 never copies a neighbour\'s label: every cell would start a region of its own and only pass 2 '
+                'could join them (labels of a component must be seeded from labelled neighbours)')
+        return
+    sname = found.args[0]
+    Ls = [L for L in k.loops if Rat.sym(L.var) == found.args[1]]
+    Ls = Ls[0] if Ls else None
+    check_search(c, Ls, next(iter(sname.atoms())).name if isinstance(sname, Rat) else str(sname))
+
+    def run(state):
+        env = {uatom: F(41)}
+        for a in roles['nan']:
+            env[a] = F(1 if state['nan'] else 0)
+        for a in roles['count']:
+            env[a] = F(state['count'])
+        for a in roles['own']:
+            env[a] = OWN
+        for a in roles['is']:
+            if a.args[0] == Rat.atom(found):
+                env[a] = F(1 if state['found'] is None else 0)
+        if state['found'] is not None:
+            env[found] = F(state['found'])
+        vals = []
+        for s in stores:
+            if _all_true(s.guards[Lx.gdepth:], env):
+                v = s.value
+                if isinstance(v, Rat) and v == Rat.sym('nan'):
+                    vals.append(OWN)
+                else:
+                    vals.append(evaluate(v, env))
+        return vals, evaluate(upost, env)
+
+    table = [
+        ('NaN cell', {'nan': True, 'count': 0, 'found': None}, OWN, 41, 'a NaN cell stays NaN and takes no label'),
+        ('NaN cell (stale neighbour state)', {'nan': True, 'count': 2, 'found': 7}, OWN, 41, 'a NaN cell stays NaN and takes no label'),
+        ('no matching neighbour', {'nan': False, 'count': 0, 'found': None}, 41, 42,
+         'a cell without a matching neighbour takes a fresh id and the counter advances'),
+        ('matching neighbours, none labelled yet', {'nan': False, 'count': 2, 'found': None}, 41, 42,
+         'a cell whose matching neighbours are all unlabelled takes a fresh id and the counter advances'),
+        ('a labelled matching neighbour (label 7)', {'nan': False, 'count': 2, 'found': 7}, 7, 41,
+         'a cell with a labelled matching neighbour copies that label and the counter stays'),
+    ]
+    for title, state, wantv, wantu, why in table:
+        try:
+            vals, u = run(state)
+        except CannotEvaluate as e:
+            rep.add('R2', f, entry, 'pass 1, ' + title, line, None, 'not evaluable: %s' % e)
+            continue
+        ok = len(vals) >= 1 and vals[-1] == wantv and (u > 41 if wantu > 41 else u == 41)
+        got = 'stores %s, counter 41 -> %s' % (['own value' if v == OWN else str(v) for v in vals], u)
+        rep.add('R2', f, entry, 'pass 1, %s: %s' % (title, got), line, ok, why + ' (expected label %s, counter -> %s)' % (
+            'own value' if wantv == OWN else wantv, wantu))
+
+
+def check_search(c, L, name):
+    """the search loop leaves `name` None when no matching neighbour is labelled, else the label (> 0) of one"""
+    rep, f, entry = c.rep, c.f, c.entry
+    if L is None or name not in getattr(L, 'phi', {}) or name not in getattr(L, 'carried', {}):
+        rep.add('R2', f, entry, 'search for a labelled matching neighbour', f.node.lineno, None, 'search loop not recognised')
+        return
+    line = L.node.lineno
+    pre = L.pre.get(name)
+    rep.add('R2', f, entry, '%s is None before the search' % name, line, pre == Rat.atom(NONE),
+            'the found label must start as None: a stale label of the previous cell would be copied')
+    phi, post = L.carried[name]
+    patom = next(iter(phi.atoms()))
+    atoms = walk_atoms(post)
+    paths = [(g, envb.get(name)) for g, envb, nb in L.breaks]
+    for g, v in paths:
+        atoms |= guard_atoms(g)
+        if isinstance(v, Rat):
+            atoms |= walk_atoms(v)
+    labels = [a for a in atoms if isinstance(a, App) and a.name == 'cell?' and a.args[0] in c.labelwin]
+    if len(labels) != 1:
+        rep.add('R2', f, entry, 'search loop reads the label window', line, None if labels else False,
+                'the search must look at the labels of the matching neighbours (found %d label reads)' % len(labels))
+        return
+    A = labels[0]
+    okm, P = _match_ok(c, A, L)
+    rep.add('R2', f, entry, 'labels looked up at the slots of ALL matching neighbours', line, okm,
+            'the label window must be read at match slot j for j over every match')
+    c.predicates = getattr(c, 'predicates', []) + [(P, L.node.lineno)]
+    isn = [a for a in atoms if isinstance(a, App) and a.name == 'is' and a.args[0] == phi]
+    for title, prior, lab in (('unlabelled neighbour, nothing found yet', None, 0), ('unlabelled neighbour, label 7 found before', 7, 0),
+                              ('neighbour labelled 3, nothing found yet', None, 3), ('neighbour labelled 3, label 7 found before', 7, 3)):
+        env = {A: F(lab)}
+        for a in isn:
+            env[a] = F(1 if prior is None else 0)
+        if prior is not None:
+            env[patom] = F(prior)
+        try:
+            taken = [(g, v) for g, v in paths if _all_true(g, env)]
+            if taken:
+                v = taken[0][1]
+                res = None if v == Rat.atom(NONE) else evaluate(v, env)
+                left = True
+            else:
+                left = False
+                res = None if (prior is None and post == phi) else evaluate(post, env)
+        except CannotEvaluate as e:
+            rep.add('R2', f, entry, 'search step, ' + title, line, None, 'not evaluable: %s' % e)
+            continue
+        if lab == 0:
+            ok = not left and res == prior
+            why = 'an unlabelled (0) neighbour must be passed over: stopping or taking its 0 leaves the cell unlabelled / ' \
+                  'misses labelled neighbours further on'
+        else:
+            ok = res == lab or (prior is not None and res == prior)
+            why = 'a labelled neighbour\'s label must be taken (or an earlier found one kept)'
+        rep.add('R2', f, entry, 'search step, %s: %s -> %s%s' % (title, prior, res, ', loop left' if left else ''), line, ok, why)
+
+
+def check_pass2(c):
+    rep, f, entry, k = c.rep, c.f, c.entry, c.k
+    Ly, Lx = c.passes[1]
+    line = Ly.node.lineno
+    stores = [s for s in k.stores if s.arr is c.out and s.loops and s.loops[0] is Ly]
+    # replacement stores: whole-raster loops nested in the neighbour loop
     repl = []
-    for n in ast.walk(ml):
-        if isinstance(n, ast.For) and norm(n.iter).replace(' ', '') in ('range(0,%s)' % rows, 'range(%s)' % rows):
-            ins = [s for s in n.body if isinstance(s, ast.For)]
-            if len(ins) == 1 and norm(ins[0].iter).replace(' ', '') in ('range(0,%s)' % cols, 'range(%s)' % cols):
-                y1, x1 = n.target.id, ins[0].target.id
-                ifs = [s for s in ins[0].body if isinstance(s, ast.If)]
-                if len(ifs) == 1 and isinstance(ifs[0].test, ast.Compare) and isinstance(ifs[0].test.ops[0], ast.Eq):
-                    cell = '%s[%s, %s]' % (out, y1, x1)
-                    l, r = norm(ifs[0].test.left), norm(ifs[0].test.comparators[0])
-                    frm = r if l == cell else (l if r == cell else None)
-                    to = None
-                    for a in ifs[0].body:
-                        if isinstance(a, ast.Assign) and norm(a.targets[0]) == cell:
-                            to = norm(a.value)
-                    repl.append((frm, to, n))
-    pairs = {(a, b) for a, b, n in repl}
-    ok = pairs == {('assigned_values_min', 'area_val'), ('area_val', 'assigned_values_min')}
-    rep.add('R3', f, entry, 'global relabelling loops %s' % sorted(pairs), ml.lineno, ok,
-            'for two distinct labels among matching neighbours the larger must be replaced by the smaller over the '
-            'WHOLE raster, whichever of the two was seen first (two full-raster replacement loops, one per ordering)')
-    # direction: replace larger by smaller and keep the minimum
-    okdir = False
-    for n in ast.walk(ml):
-        if isinstance(n, ast.If) and norm(n.test).replace(' ', '') == 'assigned_values_min>area_val':
-            thn = [x for a, b, x in repl if x in list(ast.walk(n)) and any(x in list(ast.walk(s)) for s in n.body)]
-            els = [x for a, b, x in repl if any(x in list(ast.walk(s)) for s in n.orelse)]
-            upd = any(norm(s) == 'assigned_values_min = area_val' for s in n.body)
-            a1 = [(a, b) for a, b, x in repl if x in thn]
-            a2 = [(a, b) for a, b, x in repl if x in els]
-            okdir = a1 == [('assigned_values_min', 'area_val')] and a2 == [('area_val', 'assigned_values_min')] and upd
-    rep.add('R3', f, entry, 'merge direction and running minimum', ml.lineno, okdir,
-            'when the running label is larger it is replaced by the neighbour\'s label and the running label is updated; '
-            'otherwise the neighbour\'s label is replaced by the running one')
-    ok = any(isinstance(n, ast.Assign) and norm(n.value).replace(' ', '') == 'area_window[neighbor_matches[j]]' for n in ast.walk(ml))
-    rep.add('R3', f, entry, 'area_val = area_window[neighbor_matches[j]]', ml.lineno, ok,
-            'labels are looked up at the slots of the matching neighbours')
+    bad = []
+    for s in stores:
+        if len(s.loops) >= 5 and _is_full_range(s.loops[-2], c.rows) and _is_full_range(s.loops[-1], c.cols) and \
+                tuple(s.idx) == (Rat.sym(s.loops[-2].var), Rat.sym(s.loops[-1].var)):
+            repl.append(s)
+        else:
+            bad.append(s)
+    for s in bad:
+        rep.add('R3', f, entry, norm(s.node), s.node.lineno, False,
+                'pass 2 may change labels only by replacing one label by another over the WHOLE raster (rows 0..shape[0] x '
+                'columns 0..shape[1]); a partial sweep or a direct store leaves cells of a component with different labels')
+    if not repl:
+        rep.add('R3', f, entry, 'pass 2 merge', line, False, 'no whole-raster relabelling found: labels of one component '
+                'started from different seeds are never joined')
+        return
+    Ls = {id(s.loops[2]): s.loops[2] for s in repl}
+    if len(Ls) != 1 or any(len(s.loops) != 5 for s in repl):
+        rep.add('R3', f, entry, 'pass 2 merge loop', line, None, 'relabelling is not nested directly in one neighbour loop')
+        return
+    L = next(iter(Ls.values()))
+    brk = [n for n in ast.walk(L.node) if isinstance(n, (ast.Break, ast.Return))]
+    rep.add('R3', f, entry, 'merge loop has no early exit', L.node.lineno, not brk,
+            'every matching neighbour must be examined and every relabelling sweep completed: an early exit leaves labels '
+            'of one component unmerged')
+    atoms = set()
+    for s in repl:
+        atoms |= guard_atoms(s.guards[Lx.gdepth:]) | walk_atoms(s.value)
+    run = [n for n, (symv, post) in getattr(L, 'carried', {}).items() if next(iter(symv.atoms())) in atoms]
+    if len(run) != 1:
+        rep.add('R3', f, entry, 'running label of the merge loop', L.node.lineno, None, 'no unique loop-carried running label')
+        return
+    name = run[0]
+    phi, post = L.carried[name]
+    M = next(iter(phi.atoms()))
+    atoms |= walk_atoms(post)
+    roles = _classify(c, atoms, Ly, Lx, (L,))
+    extra = [a for a in roles['phi'] if a != M] + roles['other'] + roles['loopout']
+    if extra or len(roles['label']) != 1:
+        rep.add('R3', f, entry, 'pass 2 decision structure', L.node.lineno, None if extra or roles['label'] else False,
+                'depends on quantities the rule does not model: %s / label reads %d' % (show(extra, 200), len(roles['label'])))
+        return
+    A = roles['label'][0]
+    okm, P = _match_ok(c, A, L)
+    rep.add('R3', f, entry, 'labels looked up at the slots of ALL matching neighbours', L.node.lineno, okm,
+            'the label window must be read at match slot j for j over every match (all of them take part in the merge)')
+    c.predicates = getattr(c, 'predicates', []) + [(P, L.node.lineno)]
+    rep.add('R3', f, entry, 'running label %s is None before the merge loop' % name, L.node.lineno,
+            L.pre.get(name) == Rat.atom(NONE), 'the running label must not be carried over from the previous cell: labels of '
+            'unrelated regions would be merged')
+
+    def sweep(s, env):
+        """(from label, to label) of a replacement store active under env, or None"""
+        cellg = [g for g in s.guards[Lx.gdepth:] if any(a in roles['outcell'] for a in guard_atoms([g]))]
+        rest = [g for g in s.guards[Lx.gdepth:] if g not in cellg]
+        if not _all_true(rest, env):
+            return None
+        if len(cellg) == 1 and cellg[0][0] == 'cmp' and cellg[0][1] != '==':
+            raise BadSweep('the swept cells are selected by `%s`, not by equality with one label' % cond_repr(cellg[0]))
+        if not cellg:
+            raise BadSweep('every cell of the raster is overwritten')
+        if len(cellg) != 1 or cellg[0][0] != 'cmp':
+            raise CannotEvaluate('cell test is not a single comparison')
+        cells = [a for a in guard_atoms(cellg) if a in roles['outcell']]
+        own = App('cell?', [c.out.name, Rat.sym(s.loops[-2].var), Rat.sym(s.loops[-1].var)])
+        if len(cells) != 1 or tuple(cells[0].args[:3]) != tuple(own.args):
+            raise CannotEvaluate('cell test does not read the swept cell')
+        d = cellg[0][3]
+        v0 = evaluate(d, {**env, cells[0]: F(0)})
+        v1 = evaluate(d, {**env, cells[0]: F(1)})
+        v2 = evaluate(d, {**env, cells[0]: F(2)})
+        if v1 - v0 == 0 or v2 - v1 != v1 - v0:
+            raise CannotEvaluate('cell test not linear in the cell')
+        frm = -v0 / (v1 - v0)
+        return frm, evaluate(s.value, env)
+
+    table = [('first matching neighbour (label 3)', None, 3, None, 3),
+             ('same label (4, 4)', 4, 4, None, 4),
+             ('running label larger (5 > 3)', 5, 3, (5, 3), 3),
+             ('running label smaller (3 < 5)', 3, 5, (5, 3), 3)]
+    for title, m, a, want, wantm in table:
+        env = {A: F(a)}
+        for x in roles['nan']:
+            env[x] = F(0)
+        for x in roles['count']:
+            env[x] = F(2)
+        for x in roles['own']:
+            env[x] = OWN
+        for x in roles['is']:
+            if x.args[0] == phi:
+                env[x] = F(1 if m is None else 0)
+        if m is not None:
+            env[M] = F(m)
+        try:
+            acts = [r for r in (sweep(s, env) for s in repl) if r is not None and r[0] != r[1]]
+            newm = evaluate(post, env)
+        except BadSweep as e:
+            rep.add('R3', f, entry, 'merge step, ' + title, L.node.lineno, False,
+                    'a relabelling sweep must replace exactly the cells that hold one label: %s' % e)
+            continue
+        except CannotEvaluate as e:
+            rep.add('R3', f, entry, 'merge step, ' + title, L.node.lineno, None, 'not evaluable: %s' % e)
+            continue
+        # which of the two labels survives is immaterial for the partition; the running label must be the survivor
+        if want is None:
+            ok = acts == [] and newm == wantm
+        else:
+            ok = len(acts) == 1 and set(acts[0]) == set(want) and newm == acts[0][1]
+        rep.add('R3', f, entry, 'merge step, %s: sweeps %s, running label -> %s' % (
+            title, ['%s->%s' % r for r in acts], newm), L.node.lineno, ok,
+            'for two distinct labels among matching neighbours one must be replaced by the other over the whole raster, '
+            'whichever was seen first, and the running label becomes the surviving one (expected %s)' % (
+                'no sweep, running -> %s' % wantm if want is None else 'one sweep between %s and %s, running -> survivor' % want))
 
 
 def alloc_info(f, name):
@@ -255,25 +537,39 @@ def alloc_info(f, name):
     return c, (norm(dt) if dt is not None else None)
 
 
-def check_dtypes(prog, rep, f, pub, call, entry, data, out):
+def _inline_locals(fn, e, depth=4):
+    """expression with single-assignment locals of fn replaced by their definitions (bounded)"""
+    las = fn.local_assigns()
+
+    class Sub(ast.NodeTransformer):
+        def visit_Name(self, n):
+            vals = [v for v in las.get(n.id, []) if isinstance(v, ast.AST)]
+            if isinstance(n.ctx, ast.Load) and n.id not in fn.params and len(vals) == 1 and len(las.get(n.id, [])) == 1:
+                return vals[0]
+            return n
+    import copy
+    e = copy.deepcopy(e)
+    for _ in range(depth):
+        e = Sub().visit(e)
+    return e
+
+
+def check_dtypes(prog, rep, f, pub, call, entry, c):
+    data, out = c.data, c.out.name
     # Q1: arrays receiving the counter (out) and arrays receiving elements of out (label window)
-    targets = {out}
-    for n in f.own_nodes():
-        if isinstance(n, ast.Assign) and isinstance(n.targets[0], ast.Subscript) and isinstance(n.value, ast.Subscript) and \
-                norm(n.value.value) == out and isinstance(n.targets[0].value, ast.Name):
-            targets.add(n.targets[0].value.id)
+    targets = {out} | {w for w in c.labelwin if w}
     for name in sorted(targets):
-        c, dt = alloc_info(f, name)
-        if c is None:
+        cl, dt = alloc_info(f, name)
+        if cl is None:
             rep.add('Q1', f, entry, 'allocation of %s' % name, f.node.lineno, None, 'single allocation not found')
             continue
-        like = short(c).endswith('_like')
+        like = short(cl).endswith('_like')
         ok = dt in WIDE_OK if not (like and dt is None) else False
         if dt is not None and ('%s.dtype' % data) in dt:
             ok = False
         if dt is None and not like:
             ok = True      # numpy default float64
-        rep.add('Q1', f, entry, '%s = %s' % (name, norm(c)), c.lineno, ok,
+        rep.add('Q1', f, entry, '%s = %s' % (name, norm(cl)), cl.lineno, ok,
                 'the array receives the running region counter: it must have a fixed wide dtype (float64 / int64), never '
                 'the input raster\'s own dtype - a uint8 raster with more than 255 regions would wrap labels (and reuse 0)')
     # Q1 (wrapper): the label image may only be cast to a fixed wide dtype afterwards
@@ -281,48 +577,72 @@ def check_dtypes(prog, rep, f, pub, call, entry, data, out):
     for n in pub.own_nodes():
         if isinstance(n, ast.Assign) and n.value is call and isinstance(n.targets[0], ast.Name):
             res = n.targets[0].id
-    casts = [c for c in calls(pub.node) if short(c) == 'astype' and isinstance(c.func, ast.Attribute) and
-             res is not None and norm(c.func.value) == res]
-    for c in casts:
-        dt = norm(c.args[0]) if c.args else None
-        rep.add('Q1', pub, entry, norm(c), c.lineno, dt in WIDE_OK,
+    casts = [cl for cl in calls(pub.node) if short(cl) == 'astype' and isinstance(cl.func, ast.Attribute) and
+             res is not None and norm(cl.func.value) == res]
+    for cl in casts:
+        dt = norm(cl.args[0]) if cl.args else None
+        rep.add('Q1', pub, entry, norm(cl), cl.lineno, dt in WIDE_OK,
                 'the label image counts regions: it may only be converted to a fixed wide dtype, never back to the input '
                 'raster\'s dtype (int8 holds 127 labels, uint8 255)')
-    # Q2: matching
-    sites = [n for n in f.own_nodes() if isinstance(n, ast.Assign) and norm(n.targets[0]) == 'is_close']
-    pm = parent_map(f.node)
+    # Q2: the matching predicates P(window value w, cell value v) collected from both passes
     flags = set()
-    for n in sites:
-        t = norm(n.value).replace(' ', '')
-        exact = t in ('src_window==val', 'val==src_window')
-        p = pm.get(n)
-        if isinstance(p, ast.If) and isinstance(p.test, ast.Name) and p.test.id in f.params + f.kwonly:
-            flags.add(p.test.id)
-            inbody = n in p.body
-            if exact:
-                rep.add('Q2', f, entry, 'if %s: %s' % (p.test.id, norm(n)), n.lineno, inbody,
-                        'exact equality must be the branch taken for integer rasters')
-            else:
-                rep.add('Q2', f, entry, 'else: %s' % norm(n)[:80], n.lineno, not inbody,
-                        'tolerance matching may only be used on the non-integer path')
-        else:
-            rep.add('Q2', f, entry, norm(n)[:120], n.lineno, exact,
-                    'matching must be an equivalence relation on the raster values: tolerance arithmetic in the '
-                    'raster\'s own dtype merges 100000 with 100001 (rtol) and overflows for int8 -128 / unsigned '
-                    'differences; integer rasters need exact ==, tolerance only for floats (selected by a dtype flag)')
+    preds = getattr(c, 'predicates', [])
+    for P, line in preds:
+        atoms = guard_atoms([P])
+        ws = [a for a in atoms if isinstance(a, App) and a.name == 'arr']
+        vs = [a for a in atoms if isinstance(a, App) and a.name == 'read']
+        fl = [a for a in atoms if isinstance(a, Sym) and a.name in f.params + f.kwonly]
+        centres = [App('read', [data, Rat.sym(Ly.var), Rat.sym(Lx.var)]) for Ly, Lx in c.passes]
+        shape_ok = len(ws) == 1 and ws[0].args[0] in c.valuewin and len(vs) == 1 and vs[0] in centres and len(fl) <= 1 and \
+            not [a for a in atoms if isinstance(a, Sym) and a not in fl and '@' not in a.name]
+        if not shape_ok:
+            rep.add('Q2', f, entry, 'matching predicate at line %d' % line, line, None,
+                    'not a predicate of (value window, centre cell, dtype flag): %s' % show(P, 200))
+            continue
+        w, v = ws[0], vs[0]
+
+        def holds(wv, vv, flag):
+            env = {w: F(wv), v: F(vv)}
+            if fl:
+                env[fl[0]] = F(flag)
+            return eval_cond_full(P, env)
+        exact_pairs = [(5, 5, True), (0, 0, True), (-128, -128, True), (100000, 100001, False), (100001, 100000, False),
+                       (-128, 127, False), (0, 1, False), (1, 0, False), (10**9, 10**9 + 1, False), (255, 0, False)]
+        try:
+            for flag in ((1, 0) if fl else (None,)):
+                if flag in (1, None):
+                    wrong = [(a, b) for a, b, want in exact_pairs if holds(a, b, flag) != want]
+                    rep.add('Q2', f, entry, 'matching on the integer path%s (line %d)' % (' (%s true)' % fl[0].name if fl else '', line),
+                            line, not wrong, 'matching must be an equivalence relation on the raster values: tolerance '
+                            'arithmetic in the raster\'s own dtype merges 100000 with 100001 (rtol) and overflows for int8 '
+                            '-128 / unsigned differences; integer rasters need exact == (wrong for pairs %s)' % wrong[:4])
+                else:
+                    wrong = [(a, b) for a, b, want in ((5, 5, True), (0, 0, True), (1, 2, False), (2, 1, False), (-3, 3, False))
+                             if holds(a, b, flag) != want]
+                    rep.add('Q2', f, entry, 'matching on the float path (%s false) (line %d)' % (fl[0].name, line), line,
+                            not wrong, 'a value must match itself and clearly different values must not match (wrong for %s)' % wrong)
+        except CannotEvaluate as e:
+            rep.add('Q2', f, entry, 'matching predicate at line %d' % line, line, None, 'not evaluable: %s' % e)
+            continue
+        flags |= {a.name for a in fl}
+    if len({cond_key_text(P) for P, _ in preds}) > 1:
+        rep.add('Q2', f, entry, 'both passes use the same matching predicate', f.node.lineno,
+                len({cond_key_text(P).replace(c.passes[1][0].var, 'Y').replace(c.passes[1][1].var, 'X').replace(
+                    c.passes[0][0].var, 'Y').replace(c.passes[0][1].var, 'X') for P, _ in preds}) == 1,
+                'pass 1 and pass 2 must agree on which neighbours match')
     # the flag is computed from the raster's dtype in the wrapper
     for fl in sorted(flags):
         actual = None
-        for k in call.keywords:
-            if k.arg == fl:
-                actual = k.value
+        for kk in call.keywords:
+            if kk.arg == fl:
+                actual = kk.value
         if actual is None and fl in f.params and f.params.index(fl) < len(call.args):
             actual = call.args[f.params.index(fl)]
-        src = actual
-        if isinstance(src, ast.Name):
-            vals = [v for v in pub.local_assigns().get(src.id, []) if isinstance(v, ast.AST)]
-            src = vals[0] if len(vals) == 1 else None
-        t = norm(src).replace(' ', '') if src is not None else ''
+        t = norm(_inline_locals(pub, actual)).replace(' ', '') if actual is not None else ''
         ok = 'np.issubdtype(' in t and '.dtype,np.integer)' in t and pub.params[0] in t
-        rep.add('Q2', pub, entry, '%s = %s' % (fl, norm(src) if src is not None else None), call.lineno, ok,
+        rep.add('Q2', pub, entry, '%s = %s' % (fl, t or None), call.lineno, ok,
                 'the exact-matching flag must be true exactly for integer-typed rasters (np.issubdtype(raster dtype, np.integer))')
+
+
+def cond_key_text(P):
+    return repr(P)
